@@ -34,22 +34,22 @@ var ErrFatal = errors.New("read /dev/ttyS0: input/output error")
 // with an error (an *os.File never does); with DataWithErr it may, as the
 // io.Reader contract allows.
 type Source struct {
-	T        *rt.Tape
-	Data     []byte
-	Pos      int
-	Ints     []Interruption
-	MaxChunk int  // 0: 64
-	ZeroReads bool // may return (0, nil)
+	T           *rt.Tape
+	Data        []byte
+	Pos         int
+	Ints        []Interruption
+	MaxChunk    int  // 0: 64
+	ZeroReads   bool // may return (0, nil)
 	DataWithErr bool // the data before an error may be returned together with it
-	DataErrs  int
+	DataErrs    int
 	PauseOneIn  int // one read in PauseOneIn blocks for a quiet period first (0: never)
 	Pauses      int
 	quiet       int
 	QuietBursts int
 	fruitless   int
-	Handed   []byte // every byte actually handed to the reader
-	active   *Interruption
-	silentTo time.Time
+	Handed      []byte // every byte actually handed to the reader
+	active      *Interruption
+	silentTo    time.Time
 	// counters
 	Reads, EOFs, Timeouts, Fatals, ZeroN int
 	EndEOFs                              int
